@@ -16,6 +16,13 @@ Nodes (tuples; T = static type I int, B bool, O int?, L list, M map):
   ('index', base, idx) I      (base)[idx]     base = ('call','ls<n>',..) | one-element ('list',[e])
   ('mapidx', map, key) O      (map literal)[key]
   ('nileval', o, fb)          (o) or fb ; type of fb (I or O)
+  ('var', place)              a READ of mutable state, no log: gv (module / captured variable `gv`), gf (object field
+                              `go.gf`), ge (list element `gl[0]`) : I ; gb (bool variable `gb`) : B
+  ('mut', place, k[, ret])    a logging call that MUTATES that place: bg(k) | go.inc(k) | bl(k) add 1 and return the new
+                              value; fb(k, ret) toggles gb and returns ret
+  ('blit', b) B  ('nil',) O  ('plit', n) O (a present literal as the primary of `or`)  ('slit', s) string literal
+  ('bin', '+', s, x)          string concatenation when the left operand is a string
+The value of a 'var' leaf is the value of the place at the moment the leaf is evaluated (left to right).
 """
 import itertools
 import random
@@ -148,7 +155,43 @@ rb = fn(rbk: int, rbd: int) -> int {
 }
 ov1 = Obj(11)
 ov2 = Obj(12)
+gv = 50
+bg = fn(bgk: int) -> int {
+  print "bg " + bgk
+  modify gv = gv + 1
+  return gv
+}
+class Box {
+  gf: int
+  constructor(self, bxv: int) {
+    self.gf = bxv
+  }
+  fn inc(self, bfk: int) -> int {
+    print "bf " + bfk
+    self.gf = self.gf + 1
+    bfr = self.gf
+    return bfr
+  }
+}
+go = Box(60)
+gl: [int...] = [70, 71]
+bl = fn(blk: int) -> int {
+  print "bl " + blk
+  gl[0] = gl[0] + 1
+  blr = gl[0]
+  return blr
+}
+gb = false
+fb = fn(fbk: int, fbr: bool) -> bool {
+  print "fb " + fbk
+  modify gb = !gb
+  return fbr
+}
 """
+
+INIT_STATE = {'gv': 50, 'gf': 60, 'ge': 70, 'gb': False}
+MUT_LOG = {'gv': 'bg', 'gf': 'bf', 'ge': 'bl', 'gb': 'fb'}
+VAR_SRC = {'gv': 'gv', 'gf': 'go.gf', 'ge': 'gl[0]', 'gb': 'gb'}
 
 OV = {1: 11, 2: 12}
 
@@ -204,7 +247,8 @@ class Ev:
     deliberately wrong model: 'rtl' (right-to-left operands), 'noshort' (no short-circuit),
     'twice' (left operand of a binary arithmetic operator evaluated twice)."""
 
-    def __init__(self, helpers=None, mode='ltr'):
+    def __init__(self, helpers=None, mode='ltr', state=None):
+        self.state = state if state is not None else dict(INIT_STATE)
         self.log = []
         self.skipped = set()       # first log line of every operand skipped by a short-circuit
         self.stats = {}
@@ -253,8 +297,24 @@ class Ev:
             self.log.append("topt %d" % n[1])
             self.cnt('leaf_topt')
             return n[1] if n[2] else None
-        if k == 'lit':
+        if k in ('lit', 'blit', 'plit', 'slit'):
+            self.cnt('literal')
             return n[1]
+        if k == 'nil':
+            self.cnt('literal')
+            return None
+        if k == 'var':
+            self.cnt('var_read ' + n[1])
+            return self.state[n[1]]
+        if k == 'mut':
+            place = n[1]
+            self.log.append("%s %d" % (MUT_LOG[place], n[2]))
+            self.cnt('mutation ' + place)
+            if place == 'gb':
+                self.state['gb'] = not self.state['gb']
+                return n[3]
+            self.state[place] += 1
+            return self.state[place]
         if k == 'rec':
             args = self.seq(n[2])
             self.cnt('rec_calls')
@@ -264,6 +324,8 @@ class Ev:
             a, b = self.pair(n[2], n[3])
             self.cnt('op ' + op)
             if op == '+':
+                if isinstance(a, str):
+                    return a + fmt(b)
                 return self.chk(a + b)
             if op == '-':
                 return self.chk(a - b)
@@ -420,8 +482,10 @@ def first_line(n):
         return "tb %d" % n[1]
     if k == 'topt':
         return "topt %d" % n[1]
-    if k == 'lit':
+    if k in ('lit', 'blit', 'plit', 'slit', 'nil', 'var'):
         return None
+    if k == 'mut':
+        return "%s %d" % (MUT_LOG[n[1]], n[2])
     if k == 'rec':
         for a in n[2]:
             f = first_line(a)
@@ -466,9 +530,10 @@ def first_line(n):
     raise ValueError(n)
 
 
-def evaluate(tree, helpers=None, mode='ltr'):
-    """-> (log lines, value text, skipped first-lines, stats).  Raises Overflow / BadCase."""
-    e = Ev(helpers, mode)
+def evaluate(tree, helpers=None, mode='ltr', state=None):
+    """-> (log lines, value text, skipped first-lines, stats).  Raises Overflow / BadCase.  `state` (the mutable
+    places) is updated in place, so consecutive evaluations in one program see each other's mutations."""
+    e = Ev(helpers, mode, state)
     v = e.ev(tree)
     return e.log, fmt(v), e.skipped, e.stats
 
@@ -480,7 +545,7 @@ BINARYISH = ('bin', 'and', 'or', 'not', 'neg', 'nileval')
 
 def operand(n):
     s = render(n)
-    if n[0] in BINARYISH or (n[0] == 'lit' and n[1] < 0):
+    if n[0] in BINARYISH or (n[0] in ('lit', 'plit') and n[1] < 0):
         return "(" + s + ")"
     return s
 
@@ -493,8 +558,24 @@ def render(n):
         return "tb(%d, %s)" % (n[1], fmt(n[2]))
     if k == 'topt':
         return "topt(%d, %s)" % (n[1], fmt(n[2]))
-    if k == 'lit':
+    if k in ('lit', 'plit'):
         return str(n[1])
+    if k == 'blit':
+        return fmt(n[1])
+    if k == 'nil':
+        return "nil"
+    if k == 'slit':
+        return '"%s"' % n[1]
+    if k == 'var':
+        return VAR_SRC[n[1]]
+    if k == 'mut':
+        if n[1] == 'gv':
+            return "bg(%d)" % n[2]
+        if n[1] == 'gf':
+            return "go.inc(%d)" % n[2]
+        if n[1] == 'ge':
+            return "bl(%d)" % n[2]
+        return "fb(%d, %s)" % (n[2], fmt(n[3]))
     if k == 'rec':
         return "%s(%s)" % (n[1], ", ".join(render(a) for a in n[2]))
     if k == 'bin':
@@ -534,6 +615,14 @@ def type_of(n):
     k = n[0]
     if k == 'index':
         return 'B' if n[1][0] == 'call' and n[1][1] == 'lb2' else 'I'
+    if k in ('var', 'mut'):
+        return 'B' if n[1] == 'gb' else 'I'
+    if k == 'blit':
+        return 'B'
+    if k in ('nil', 'plit'):
+        return 'O'
+    if k == 'slit':
+        return 'S'
     if k in ('t', 'lit', 'rec', 'neg', 'meth'):
         return 'I'
     if k in ('tb', 'and', 'or', 'not'):
@@ -541,6 +630,8 @@ def type_of(n):
     if k in ('topt', 'mapidx'):
         return 'O'
     if k == 'bin':
+        if n[1] == '+' and type_of(n[2]) == 'S':
+            return 'S'
         return 'B' if n[1] in CMP else 'I'
     if k == 'call':
         return {'pb': 'B', 'po': 'O', 'ls1': 'L', 'ls2': 'L', 'ls3': 'L', 'lb2': 'L'}.get(n[1], 'I')
@@ -570,9 +661,12 @@ def yields_pointer(n, helpers=None):
     return False
 
 
+LEAFS = ('t', 'tb', 'topt', 'lit', 'blit', 'plit', 'slit', 'nil', 'var', 'mut')
+
+
 def depth(n):
     k = n[0]
-    if k in ('t', 'tb', 'topt', 'lit'):
+    if k in LEAFS:
         return 1
     kids = children(n)
     return 1 + max([depth(c) for c in kids] or [0])
@@ -580,7 +674,7 @@ def depth(n):
 
 def children(n):
     k = n[0]
-    if k in ('t', 'tb', 'topt', 'lit'):
+    if k in LEAFS:
         return []
     if k == 'rec':
         return list(n[2])
@@ -612,6 +706,8 @@ def count_ops(n, acc):
         key = 'meth m%d %s' % (n[2], n[1][0])
     elif k == 'rec':
         key = 'rec ' + ('h' if n[1].startswith('h') else n[1])
+    elif k in ('var', 'mut'):
+        key = '%s %s' % (k, n[1])
     acc[key] = acc.get(key, 0) + 1
     for c in children(n):
         count_ops(c, acc)
@@ -821,6 +917,160 @@ def arity_catalogue():
     return out
 
 
+# ----------------------------------------------------------------------------- disturbance and folding families
+
+def build_family_tree(shape, leaf):
+    """Family shape (leaf codes / (op, a, b)) -> concrete tree.  `leaf(code, nid)` makes a leaf; ids in source order."""
+    ctr = [0]
+
+    def nid():
+        ctr[0] += 1
+        return ctr[0]
+
+    def go(x):
+        if isinstance(x, str):
+            return leaf(x, nid)
+        op = x[0]
+        a = go(x[1])
+        b = go(x[2])
+        if op == 'sub':
+            return ('bin', '-', a, b)
+        if op == 'mul':
+            return ('bin', '*', a, b)
+        if op == 'lt':
+            return ('bin', '<', a, b)
+        if op == 'eq':
+            return ('bin', '==', a, b)
+        if op == 'f2':
+            return ('call', 'f2', [a, b])
+        if op == 'm1':
+            return ('meth', ('mk', a), 1, [b])
+        if op == 'idx':
+            return ('index', ('call', 'ls2', [a, b]), ('bin', '%', ('t', nid()), ('lit', 2)))
+        if op == 'lidx0':
+            return ('index', ('list', [a, b]), ('lit', 0))
+        if op == 'lidx1':
+            return ('index', ('list', [a, b]), ('lit', 1))
+        if op == 'list2':
+            return ('list', [a, b])
+        if op == 'map1':
+            return ('map', [(a, b)])
+        if op == 'cat':
+            return ('bin', '+', ('bin', '+', ('slit', 'c'), a), b)
+        if op == 'and':
+            return ('and', a, b)
+        if op == 'or':
+            return ('or', a, b)
+        if op == 'orI':
+            return ('nileval', a, b)
+        raise ValueError(op)
+    return go(shape)
+
+
+def family_shapes(leaves, inner_ops, root_ops):
+    """All shapes of depth <= 3: root op over operands that are leaves or inner_op(leaf, leaf)."""
+    low = list(leaves) + [(op, a, b) for op in inner_ops for a in leaves for b in leaves]
+    return [(op, a, b) for op in root_ops for a in low for b in low]
+
+
+def shape_leaves(s):
+    if isinstance(s, str):
+        return [s]
+    return shape_leaves(s[1]) + shape_leaves(s[2])
+
+
+def fam_id(s):
+    if isinstance(s, str):
+        return s
+    return "%s(%s,%s)" % (s[0], fam_id(s[1]), fam_id(s[2]))
+
+
+INT_ROOTS = ('sub', 'lt', 'eq', 'f2', 'm1', 'idx', 'lidx0', 'lidx1', 'list2', 'map1', 'cat')
+
+
+def disturb_family():
+    """A READ of a mutable place (V) and a sibling call that MUTATES exactly that place (M) at every position of
+    every depth <= 3 shape: binary operators, comparison, call and method arguments, receiver argument, indexing,
+    list / map literal elements, string concatenation; for the bool variable `&&`, `||`, list elements.
+    Place kinds: gv (module variable read at module level), gv@fn (the same variable captured by a function),
+    gf (object field go.gf, mutated through a method), ge (list element gl[0], mutated by `gl[0] = ..` in a helper),
+    gb / gb@fn (bool variable).  Yields (kind, place, in_fn, [(shape id, shape)...])."""
+    ishapes = [s for s in family_shapes(('V', 'M'), ('sub', 'f2', 'm1', 'idx'), INT_ROOTS)
+               if 'V' in shape_leaves(s) and 'M' in shape_leaves(s)]
+    bshapes = [s for s in family_shapes(('V', 'Mt', 'Mf'), ('and', 'or'), ('and', 'or', 'list2'))
+               if 'V' in shape_leaves(s) and ('Mt' in shape_leaves(s) or 'Mf' in shape_leaves(s))]
+    for kind, place, in_fn in (('gv', 'gv', False), ('gv@fn', 'gv', True), ('gf', 'gf', False), ('ge', 'ge', False)):
+        yield kind, place, in_fn, [(fam_id(s), s) for s in ishapes]
+    for kind, place, in_fn in (('gb', 'gb', False), ('gb@fn', 'gb', True)):
+        yield kind, place, in_fn, [(fam_id(s), s) for s in bshapes]
+
+
+def disturb_leaf(place):
+    def leaf(code, nid):
+        if code == 'V':
+            return ('var', place)
+        if code == 'M':
+            return ('mut', place, nid())
+        if code == 'Mt':
+            return ('mut', place, nid(), True)
+        if code == 'Mf':
+            return ('mut', place, nid(), False)
+        raise ValueError(code)
+    return leaf
+
+
+def fold_family():
+    """LITERAL leaves next to logging leaves at every position of every depth <= 3 shape (constant folding must not
+    change which logging leaves run): ints T (t(k)), Z (0), N (2) under - * < == f2 m1 index list/map literal
+    concatenation; bools Bt/Bf (tb(k, true|false)), Lt/Lf (true/false) under && || and list literals.
+    Yields (kind, [(shape id, shape)...])."""
+    ish = [s for s in family_shapes(('T', 'Z', 'N'), ('sub', 'mul', 'f2'), INT_ROOTS + ('mul',))
+           if 'T' in shape_leaves(s) and ('Z' in shape_leaves(s) or 'N' in shape_leaves(s))]
+    bsh = [s for s in family_shapes(('Bt', 'Bf', 'Lt', 'Lf'), ('and', 'or'), ('and', 'or', 'list2'))
+           if any(c in shape_leaves(s) for c in ('Bt', 'Bf')) and any(c in shape_leaves(s) for c in ('Lt', 'Lf'))]
+    yield 'int', [(fam_id(s), s) for s in ish]
+    yield 'bool', [(fam_id(s), s) for s in bsh]
+
+
+def fold_leaf(code, nid):
+    if code == 'T':
+        return ('t', nid())
+    if code == 'Z':
+        return ('lit', 0)
+    if code == 'N':
+        return ('lit', 2)
+    if code == 'Bt':
+        return ('tb', nid(), True)
+    if code == 'Bf':
+        return ('tb', nid(), False)
+    if code == 'Lt':
+        return ('blit', True)
+    if code == 'Lf':
+        return ('blit', False)
+    raise ValueError(code)
+
+
+def nil_catalogue():
+    """`or` with literal operands: nil / present literal primary, literal fallback, nested."""
+    T = lambda k: ('t', k)
+    cases = [
+        ('nil_or_t', ('nileval', ('nil',), T(1))),
+        ('nil_or_lit', ('nileval', ('nil',), ('lit', 2))),
+        ('present_or_t', ('nileval', ('plit', 5), T(1))),
+        ('topt_present_or_lit', ('nileval', ('topt', 1, True), ('lit', 2))),
+        ('topt_absent_or_lit', ('nileval', ('topt', 1, False), ('lit', 2))),
+        ('sub(nil_or_t,t)', ('bin', '-', ('nileval', ('nil',), T(1)), T(2))),
+        ('sub(t,present_or_t)', ('bin', '-', T(1), ('nileval', ('plit', 5), T(2)))),
+        ('f2(topt_absent_or_lit,t)', ('call', 'f2', [('nileval', ('topt', 1, False), ('lit', 3)), T(2)])),
+        ('f2(t,nil_or_lit)', ('call', 'f2', [T(1), ('nileval', ('nil',), ('lit', 3))])),
+        ('list(nil_or_t,present_or_t)', ('list', [('nileval', ('nil',), T(1)), ('nileval', ('plit', 4), T(2))])),
+        ('nil_or_(topt_absent_or_t)', ('nileval', ('nil',), ('nileval', ('topt', 1, False), T(2)))),
+        ('nil_or_sub(t,lit)', ('nileval', ('nil',), ('bin', '-', T(1), ('lit', 2)))),
+        ('and(tb,eq(nil_or_lit,lit))', ('and', ('tb', 1, True), ('bin', '==', ('nileval', ('nil',), ('lit', 2)), ('lit', 2)))),
+    ]
+    return cases
+
+
 # ----------------------------------------------------------------------------- random trees (depth <= 4)
 
 class Gen:
@@ -839,6 +1089,14 @@ class Gen:
         r = self.r
         if ty == 'I':
             c = r.random()
+            if not self.in_helper:
+                v = r.random()
+                if v < 0.10:
+                    return ('var', r.choice(['gv', 'gf', 'ge']))
+                if v < 0.18:
+                    return ('mut', r.choice(['gv', 'gf', 'ge']), self.nid())
+                if v < 0.24:
+                    return ('lit', r.choice([0, 1, 2, 3]))
             if c < 0.70 or self.in_helper:
                 return ('t', self.nid())
             if c < 0.80:
@@ -849,8 +1107,20 @@ class Gen:
                 return ('call', 'f0', [])
             return ('rec', self.new_helper(), [('lit', self.nid())])
         if ty == 'B':
+            v = r.random()
+            if v < 0.08:
+                return ('var', 'gb')
+            if v < 0.16:
+                return ('mut', 'gb', self.nid(), r.random() < 0.5)
+            if v < 0.24:
+                return ('blit', r.random() < 0.5)
             return ('tb', self.nid(), r.random() < 0.5)
         if ty == 'O':
+            v = r.random()
+            if v < 0.10:
+                return ('nil',)
+            if v < 0.16:
+                return ('plit', r.choice([4, 5, 6]))
             return ('topt', self.nid(), r.random() < 0.5)
         raise ValueError(ty)
 
@@ -904,7 +1174,7 @@ class Gen:
             if c == 'sm':
                 return ('call', 'sm', [self.map_lit(d - 1)])
             if c == 'neg':
-                return ('neg', self.noptr('I', d - 1))     # never directly a pointer-yielding operand (avoidance rule)
+                return ('neg', sub('I'))
         if ty == 'B':
             c = r.choice(['cmp'] * 4 + ['and'] * 4 + ['or'] * 4 + ['not', 'pb', 'bidx', 'bidx'])
             if c == 'cmp':
@@ -914,7 +1184,7 @@ class Gen:
             if c == 'or':
                 return ('or', sub('B'), sub('B'))
             if c == 'not':
-                return ('not', self.noptr('B', d - 1))
+                return ('not', sub('B'))
             if c == 'bidx':
                 return ('index', ('call', 'lb2', [sub('B'), sub('B')]),
                         ('bin', '%', self.tree('I', max(1, d - 2)), ('lit', 2)))
@@ -958,7 +1228,7 @@ def resolve_adjust(n, helpers):
     """Replace the ('adj', hit, salt) placeholders of map-index keys by the literal that makes the key hit
     (one of the map's keys) or miss."""
     k = n[0]
-    if k in ('t', 'tb', 'topt', 'lit'):
+    if k in LEAFS:
         return n
     if k == 'mapidx':
         m = resolve_adjust(n[1], helpers)
@@ -1013,7 +1283,9 @@ def gen_random(seed, max_depth=4):
             for name in sorted(g.helpers):
                 helpers[name] = resolve_adjust(g.helpers[name], helpers)
             tree = resolve_adjust(tree, helpers)
-            evaluate(tree, helpers)
+            st = dict(INIT_STATE)
+            evaluate(tree, helpers, 'ltr', st)
+            evaluate(tree, helpers, 'ltr', st)       # the loop context evaluates it twice on the changed state
         except (Overflow, BadCase):
             continue
         ok = ['print', 'assign', 'block', 'loop']
@@ -1044,7 +1316,7 @@ def program(tree, helpers, context='print', ty=None):
     if context == 'print':
         src += "print %s\n" % e
     elif context == 'assign':
-        const = "const " if (tree[0] == 'list' and len(tree[1]) >= 2) else ""
+        const = "const " if tree[0] == 'list' else ""      # fixed-shape (>= 2 elements or all-literal) lists must be const
         src += "%srv = %s\nprint rv\n" % (const, e)
     elif context == 'fn':
         src += "wf = fn() -> %s {\n  return %s\n}\nprint wf()\n" % (TYPE_TEXT[ty], e)
@@ -1088,6 +1360,16 @@ def classify(exp_log, exp_val, obs_lines, skipped, ok):
             missing.append(l)
     if any(l in skipped for l in extra):
         return "short_circuit"
+    if (extra or missing) and [_head(l) for l in obs_log] == [_head(l) for l in exp_log]:
+        return "value"          # the same calls in the same order, but a call logged other argument values
     if extra or missing:
         return "multiplicity"
     return "order"
+
+
+_LEAF_HEADS = ('t', 'tb', 'topt', 'bg', 'bf', 'bl', 'fb', 'ra', 'rb')
+
+
+def _head(line):
+    w = line.split(" ")
+    return line if w[0] in _LEAF_HEADS or w[0].startswith('h') else w[0]
